@@ -500,8 +500,8 @@ func c17threadExit(x *mc.X, kind string) {
 	time.Sleep(50 * time.Millisecond) // the thread (if it is going to) has exited by now
 	ferr := r.finish()
 	first := r.observation()
-	var perr error
-	pinged := withTimeout(horizon, func() { perr = e.Ping() })
+	perr := envUsable(e)
+	pinged := true
 	x.Distinct(fmt.Sprint(kind, first, perr))
 	x.Outcome("thread-exit:" + kind)
 	if ferr != nil || !strings.HasPrefix(first, "Nonzero Exit Status exit=11 err=\"\"") {
